@@ -38,6 +38,41 @@ def run_case(seed, case, n_ops, profile_name):
             break
     return viol, len(saved)
 
+def step_replay_case(seed, k, n_warm=12, n_steps=25):
+    """the second sentence of the property with the REAL controller: a generated scenario is advanced with the real Update for a
+    few steps (requests admitted from the file), then with the StepSimulation object each step RETURNS; every saved
+    (state, StepSimulation) pair is stepped twice more and both results must equal the continuation that was taken."""
+    import os, io, contextlib
+    import gen_scenario
+    from engine import WORK
+    from nrel.hive.initialization.load import load_config, load_simulation
+    from nrel.hive.app import hive_cosim
+    buf = io.StringIO()
+    with contextlib.redirect_stdout(buf), contextlib.redirect_stderr(buf):
+        sc = gen_scenario.write(os.path.join(WORK, 'scen', f'c16_{seed}_{k}'), seed * 3001 + k)
+        cfg = load_config(sc).suppress_logging()
+        rp = load_simulation(cfg)
+        rp = hive_cosim.crank(rp, n_warm).runner_payload
+        sim, env, step = rp.s, rp.e, rp.u.step_update
+        viol = []
+        def mask(s):
+            return sha(canon(s))
+        for j in range(n_steps):
+            nxt, step2 = step.update(sim, env)
+            f0 = mask(nxt)
+            a, _ = step.update(sim, env)
+            b, _ = step.update(sim, env)
+            if mask(a) != f0 or mask(b) != f0:
+                va = {vid: type(v.vehicle_state).__name__ for vid, v in a.vehicles.items()}
+                vb = {vid: type(v.vehicle_state).__name__ for vid, v in b.vehicles.items()}
+                v0 = {vid: type(v.vehicle_state).__name__ for vid, v in nxt.vehicles.items()}
+                diff = sorted(vid for vid in v0 if not (v0[vid] == va.get(vid) == vb.get(vid)))
+                viol.append(('saved_step_stepped_twice_differs', {'step_index': j, 'sim_time': int(sim.sim_time), 'vehicles_that_differ': diff[:5],
+                                                                   'first_vs_second': [(v0.get(x), va.get(x), vb.get(x)) for x in diff[:3]]}))
+                break
+            sim, step = nxt, step2
+    return viol
+
 def engine(res, spec, tier, seed, extended=False):
     t0 = time.time()
     n = 60 if tier == 'quick' else 600
@@ -59,14 +94,30 @@ def engine(res, spec, tier, seed, extended=False):
                     seen.add(kind)
                     d = dict(d, profile=profile, case=c)
                     res.add_found(kind, d, {'engine': 'eng_c16', 'seed': seed, 'case': c, 'profile': profile, 'kind': kind, 'detail': d})
+    n_sr = 3 if tier == 'quick' else 12
+    for k in range(n_sr):
+        try:
+            viol = step_replay_case(seed, k)
+        except Exception as ex:
+            res.add_broken('harness', f'step-replay scenario {k} could not be run', repr(ex)[:400])
+            continue
+        res.cov['evaluations'] += 1
+        for kind, d in viol:
+            if kind not in seen:
+                seen.add(kind)
+                d = dict(d, scenario=k)
+                res.add_found(kind, d, {'engine': 'eng_c16', 'seed': seed, 'case': k, 'profile': 'step_replay', 'kind': kind, 'detail': d})
     if not res.cov['samples']:
-        res.cov['samples'].append({'engine': 'eng_c16', 'retained_states_rechecked': states})
+        res.cov['samples'].append({'engine': 'eng_c16', 'retained_states_rechecked': states, 'saved_controller_replays': n_sr})
     res.notes['eng_c16'] = {'retained_states': states, 'wall_s': round(time.time() - t0, 1)}
 
 def replayer(payload):
     if payload.get('engine') != 'eng_c16':
         return None
-    viol, _ = run_case(payload['seed'], payload['case'], 30, payload['profile'])
+    if payload.get('profile') == 'step_replay':
+        viol = step_replay_case(payload['seed'], payload['case'])
+    else:
+        viol, _ = run_case(payload['seed'], payload['case'], 30, payload['profile'])
     hits = [v for v in viol if v[0] == payload['kind']]
     for h in hits[:2]:
         print('reproduced:', json.dumps(h, default=str))
